@@ -418,7 +418,7 @@ package pipeline
 //@   ensures [matrix-def-matrix] typeis(tf, matrixInterpolator) ==> (forall d string :: {has(c.Matrix.Setup, d)} has(c.Matrix.Setup, d) == old(has(c.Matrix.Setup, d)) && c.Matrix.Setup[d] == old(c.Matrix.Setup[d]))
 //@   ensures [untouched] c.Signature == old(c.Signature) && c.Matrix == old(c.Matrix) && c.Cache == old(c.Cache) && c.Plugins == old(c.Plugins) && c.Env == old(c.Env) && c.RemainingFields == old(c.RemainingFields)
 
-//@ frame STEPS := all(*CommandStep), all(*GroupStep), all(*WaitStep), all(*UnknownStep), all(*Plugin), all(map[string][]string), all([]string), all(map[string]string), all(*string), @GENERIC
+//@ frame STEPS := all([]Step), all(*CommandStep), all(*GroupStep), all(*WaitStep), all(*UnknownStep), all(*Plugin), all(map[string][]string), all([]string), all(map[string]string), all(*string), @GENERIC
 
 //@ func (selfInterpolater).interpolate
 //@   requires arg0 != nil
@@ -457,7 +457,7 @@ package pipeline
 
 //@ func (Steps).interpolate
 //@   requires tf != nil
-//@   assigns @STEPS
+//@   assigns @STEPS, s[..]
 //@   ensures [same] ret == nil ==> (forall i int :: {s[i]} 0 <= i && i < len(s) ==> s[i] == old(s[i]))
 
 //@ func (*GroupStep).interpolate
